@@ -198,6 +198,16 @@ def run(rep: Report, repo: Repo, tier: str) -> None:
             continue
         tk = titems[sec] or {}
         yk = ydata.get(sec) or {}
+        raw_lists = set()
+        for c_ in ast.walk(main):
+            if isinstance(c_, ast.Call) and isinstance(c_.func, ast.Attribute) and c_.func.attr == "all_contents":
+                v_ = c_.func.value
+                path_ = []
+                while isinstance(v_, ast.Subscript) and isinstance(v_.slice, ast.Constant):
+                    path_.insert(0, v_.slice.value)
+                    v_ = v_.value
+                if len(path_) == 2:
+                    raw_lists.add(f"{path_[0]}.{path_[1]}")
         for key in sorted(set(tk) | set(fields) | set(yk)):
             in_t, in_f, in_y = key in tk, key in fields, key in yk
             if not in_t:
@@ -232,6 +242,10 @@ def run(rep: Report, repo: Repo, tier: str) -> None:
             if ok and ann == "bool" and kind != "bool":
                 ok, msg = False, (f"the template validates the boolean option '{sec}.{key}' as {kind}: a value of another type "
                                   f"(a number) passes validation and is silently converted instead of being rejected")
+            if ok and ann.replace("typing.", "").lower().startswith("list[") and kind == "strseq" and f"{sec}.{key}" in raw_lists:
+                ok, msg = False, (f"'{sec}.{key}' is validated as StrSeq, which accepts a plain string, but main() rebuilds the list from "
+                                  f"the *raw* values of all sources with all_contents(): a scalar passes validation and is then "
+                                  f"iterated character by character")
             if ok and ann.replace("typing.", "").lower().startswith("list[") and kind == "list":
                 ok, msg = False, (f"the template validates the list option '{sec}.{key}' as `list`, which confuse turns into "
                                   f"TypeTemplate(collections.abc.Sequence): a plain string is a Sequence too, passes validation and is "
